@@ -89,6 +89,7 @@ class ModelFn:
         self.grow = mcfg.get("grow", True)
         self.num = num
         self.version = 0
+        self.lo = mcfg.get("lo", 0)
 
     def labels(self):
         if self.family in ("multi", "riverlabel"):
@@ -138,7 +139,7 @@ class ModelFn:
             for lab in self.labels():
                 if self.omit and H(self.seed, "o", v, lab, key) % 4 == 0:
                     continue
-                out[lab] = rat(H(self.seed, "m", v, lab, key), num, 0, 9, 3)
+                out[lab] = rat(H(self.seed, "m", v, lab, key), num, self.lo, 9, 3)
             return out
         raise ValueError(fam)
 
@@ -569,7 +570,7 @@ def effective(ecfg, world):
             out["alpha"] = alpha_value(world, a)
         else:   # documented default 0.001: a double, so the library's own weights (1 - alpha) are rounded
             out["alpha"] = Exact(0.001) if world.arith == "exact" else 0.001
-            out["inexact"] = True
+            out["inexact"] = bool(out["dynamic"])
         out["lbib"] = ecfg.get("lbib", False)
     if cls == "interval":
         out["interval_length"] = ecfg.get("interval_length", 1000)
